@@ -185,11 +185,15 @@ def run(check):
                 cnt = hits[point]
                 hs = [1] if check.quick() else sorted(set([1, min(2, cnt), cnt]))
                 ds = [35] if check.quick() else [35, 120]
+                # where the outcome of a delay is decided by a random choice of the runtime (a select with two ready cases: the stop
+                # and the input of a step that is stopped before it starts), the same plan is run several times
+                reps = 4 if (g["shape"] == "stopped_before_start" and point.startswith("pl:runningStep.startStage")) else 1
                 for h in hs:
                     for d in ds:
-                        c2, s2 = runfam.build_case("c09-%05d" % idx, g, plan={"sites": [{"point": point, "hit": h, "ms": d}], "record": True}, plan_scope="execute")
-                        idx += 1
-                        items.append((c2, s2, dict(g, site=(point, h, d))))
+                        for _rep in range(reps):
+                            c2, s2 = runfam.build_case("c09-%05d" % idx, g, plan={"sites": [{"point": point, "hit": h, "ms": d}], "record": True}, plan_scope="execute")
+                            idx += 1
+                            items.append((c2, s2, dict(g, site=(point, h, d))))
             # two delays at neighbouring schedule points of one function (a window opened by the first, held by the second)
             if g["shape"] in ("one_step", "enabled_true", "wait_for", "deploy_expr"):
                 by_fn = {}
